@@ -19,8 +19,7 @@ Record case := {
 
 (* everything the model and the oracles say about one run *)
 Record step_res := {
-  sr_lo : list item;                  (* model payload when the walk meets the failing entries first *)
-  sr_hi : list item;                  (* ... last *)
+  sr_model : list item;               (* the model's payload *)
   sr_upper : list item;               (* C01 oracle: everything carried by usable versions *)
   sr_lower : list item;               (* C02 oracle: what the chosen versions carry, after the unsafe filter *)
   sr_store : store;
@@ -29,15 +28,15 @@ Record step_res := {
 Definition step (cf : cfg) (pkeys : list (N * N)) (ri : run_in) (st : store) (tast : list (N * cert)) : option step_res :=
   let w := mk_world pkeys ri st tast in
   let fuel := fuel_for cf in
-  match run fuel cf perm_lo w (ri_tals ri), run fuel cf perm_hi w (ri_tals ri),
+  match run fuel cf perm_id w (ri_tals ri),
         run_gen (upper_point cf w) fuel w (ri_tals ri), run_gen (chosen_point cf w) fuel w (ri_tals ri) with
-  | Ok rlo, Ok rhi, Ok up, Ok ch =>
-      Some {| sr_lo := r_payload rlo; sr_hi := r_payload rhi;
+  | Ok rlo, Ok up, Ok ch =>
+      Some {| sr_model := r_payload rlo;
               sr_upper := o_items up;
               sr_lower := filter (keep_unsafe cf (o_rejected ch)) (o_items ch);
               sr_store := store_apply st (r_updates rlo);
               sr_tast := rev (flat_map (fun t => ta_updates w (t_key t) (t_uris t)) (ri_tals ri)) ++ tast |}
-  | _, _, _, _ => None
+  | _, _, _ => None
   end.
 
 Definition opt_eqb (a b : option N) : bool :=
@@ -46,10 +45,9 @@ Definition opt_eqb (a b : option N) : bool :=
 Definition store_matches (pkeys : list (N * N)) (st : store) (obs : list (N * N)) : bool :=
   forallb (fun pk => opt_eqb (option_map (fun s => v_id (s_version s)) (store_get st (fst pk))) (assoc_get obs (fst pk))) pkeys.
 
-(* model = implementation for one run: the payload lies between the two extreme walk orders (they
-   coincide unless an update was aborted after new objects had been processed), same stored manifests *)
+(* model = implementation for one run: the same payload set, the same stored manifests *)
 Definition corresponds (pkeys : list (N * N)) (sr : step_res) (o : run_obs) : bool :=
-  ob_ok o && inclb (sr_lo sr) (ob_payload o) && inclb (ob_payload o) (sr_hi sr)
+  ob_ok o && inclb (sr_model sr) (ob_payload o) && inclb (ob_payload o) (sr_model sr)
   && store_matches pkeys (sr_store sr) (ob_store o).
 
 (* precondition of the set view of ASPAs: one ASPA object per customer in a version *)
